@@ -139,8 +139,9 @@ EXPORT errno_t _mbsrtowcs_s_chk(size_t *restrict retvalp,
     *retvalp = 0;
     CHK_SRC_NULL("mbsrtowcs_s", ps)
     if (unlikely(srcp == NULL)) {
-        /* dest may be null as well (the size-query form): nothing to clear then */
-        if (dest) {
+        /* dest may be null as well (the size-query form), or have no elements:
+           nothing to clear then */
+        if (dest && dmax) {
             handle_werror(dest, dmax, "mbsrtowcs_s: srcp is null", ESNULLP);
         } else {
             invoke_safe_str_constraint_handler("mbsrtowcs_s: srcp is null",
